@@ -84,9 +84,9 @@ func RewriteSpatialQuery(q Spatial) Query {
 
 func TokensForCovering(covering s2.CellUnion, tokens []string) []string {
 	for _, cell := range covering {
-		if cell.Level() == 0 {
-			continue
-		}
+		// Face cells are included: RewriteSpatialQuery looks for them as
+		// ancestors of the query's covering, and they're the only cells
+		// covering features that span a whole face.
 		tokens = append(tokens, cellIDToToken(cell))
 	}
 	return cellIDAncestorTokens(covering, tokens)
